@@ -133,22 +133,40 @@ WriteWalk(total, ends, s, off, i) ==
                [] it.t = "zero"  -> [err |-> NOCODE, off |-> off]
                [] it.t = "eintr" -> WriteWalk(total, ends, s, off, i + 1)
                [] it.t = "err"   -> [err |-> it.k, off |-> off]
-WriteOK(o, data, pieces, s) ==
+\* ff = 1: a Display impl reports fmt::Error after the last fragment (write_fmt only): if the
+\* writer took everything, write_fmt still fails, with an error that has no OS code.
+WriteOK(o, data, pieces, s, ff) ==
     LET w == WriteWalk(Len(data), Ends(pieces), s, 0, 1)
     IN  /\ o.buf = SubSeq(data, 1, w.off)
-        /\ IF w.err = NOCODE THEN o.err # 0 ELSE o.err = w.err
+        /\ IF w.err = NOCODE THEN o.err # 0
+           ELSE IF w.err = 0 /\ ff = 1 THEN o.err = NOCODE
+           ELSE o.err = w.err
 
 \* The same, stated on a recorded call log only (independent of the walk above): what the
 \* writer accepted, concatenated, is a prefix of the data, all of it iff Ok; an error is the
 \* last response's error; nothing is offered after an error / Ok(0).
 \* calls: sequence of <<offered/requested, kind, n>>.
-WriteLogOK(o, data, calls) ==
+WriteLogOK(o, data, calls, ff) ==
     LET m == Len(calls)
         acc[i \in 0..m] == IF i = 0 THEN 0 ELSE acc[i - 1] + (IF calls[i][2] = "acc" THEN calls[i][3] ELSE 0)
     IN  /\ o.buf = SubSeq(data, 1, acc[m])
         /\ \A i \in 1..m : calls[i][2] \in {"zero", "err"} => i = m
-        /\ o.err = 0 <=> (acc[m] = Len(data) /\ (m = 0 \/ calls[m][2] \in {"acc", "eintr"}))
+        /\ o.err = 0 <=> (acc[m] = Len(data) /\ ff = 0 /\ (m = 0 \/ calls[m][2] \in {"acc", "eintr"}))
         /\ (m > 0 /\ calls[m][2] = "err") => o.err = calls[m][3]
+
+\* The print macros (unix/print.rs): print!/println! format into __UnixWriter, whose write_str
+\* loops over write(2) on fd 1.  A recorded run r: len = bytes of the formatted text, rlen = how
+\* many the descriptor received, mismatch = first position where they differ from the text (-1:
+\* none), nl = a newline followed (println!), ok = 1/0 result of the direct fmt::Write::write_fmt
+\* call, 2 = macro (result discarded), signals = signals sent while writing (a write(2) can only
+\* fail or come back short if one arrived).  Every byte at most once and in order; all of them
+\* unless an error was (or, for the macros, may have been) returned.
+PrintOK(r) ==
+    /\ r.mismatch = -1 /\ r.rlen <= r.len
+    /\ r.ok = 1 => r.rlen = r.len
+    /\ r.signals = 0 => /\ r.rlen = r.len /\ r.ok # 0
+                        /\ r.kind \in {"println", "println0"} => r.nl
+    /\ r.kind \notin {"println", "println0"} => ~r.nl
 
 ---------------------------------------------------------------------------
 (* PART 2: the transcription *)
@@ -156,7 +174,7 @@ CONSTANTS Grow(_, _),        \* Grow(len, cap): capacities Vec::reserve(32) may 
           ProbeGrow(_, _)    \* ProbeGrow(cap, n): capacities after extend_from_slice of n bytes onto a full vector
 
 VARIABLES
-    case,    \* [op, script, data, init, cap0, n, pieces] - fixed during a behaviour
+    case,    \* [op, script, data, init, cap0, n, pieces, ff] - fixed during a behaviour
     pc,      \* "top" | "probe" | "ret" | "xloop" | "xend" | "wloop" | "done"
     vec,     \* contents of the Vec<u8> / String (reads), of the destination slice prefix
              \* (read_exact), of the writer's sink (writes)
@@ -361,7 +379,9 @@ WriteStep ==
 WriteEnd ==
     /\ pc = "wloop" /\ off = Len(data)
     /\ pc' = "done"
-    /\ UNCHANGED <<case, vec, cap, initd, truly, ri, left, pos, term, off, ret, calls, bad>>
+    \* fmt::write failed although no I/O error was saved: Err(Error::no_code("formatter error"))
+    /\ ret' = IF case.ff = 1 THEN [err |-> NOCODE, n |-> 0] ELSE ret
+    /\ UNCHANGED <<case, vec, cap, initd, truly, ri, left, pos, term, off, calls, bad>>
 
 Next == ReadStep \/ ProbeStep \/ Return \/ ExactStep \/ ExactEnd \/ WriteStep \/ WriteEnd
 
@@ -374,8 +394,8 @@ Correct ==
         CASE case.op = "read_to_end"    -> ReadToEndOK(Outcome, case.init, data, script)
           [] case.op = "read_to_string" -> ReadToStringOK(Outcome, case.init, data, script)
           [] case.op = "read_exact"     -> ReadExactOK(Outcome, case.n, data, script)
-          [] case.op \in WriteOps       -> /\ WriteOK(Outcome, data, case.pieces, script)
-                                           /\ WriteLogOK(Outcome, data, calls)
+          [] case.op \in WriteOps       -> /\ WriteOK(Outcome, data, case.pieces, script, case.ff)
+                                           /\ WriteLogOK(Outcome, data, calls, case.ff)
 
 \* filled <= initialized <= capacity, set_len within initialised bytes, no zero-length
 \* request, nothing after end of file / an error
